@@ -61,6 +61,13 @@ pub fn run_case(lines: &[Vec<String>], o: &mut Out) {
     // build, then re-add the listed (existing) nodes: add_node on an existing name only updates its attributes
     let r = guard(|| {
         G::new_from_nodes_and_edges(ns, es, specs.clone()).map(|mut g| {
+            if !readd.is_empty() {
+                // ask first, then grow, then ask again: an answer must describe the graph as it is now
+                let _ = components::number_of_connected_components(&g);
+                let _ = components::connected_components(&g);
+                let _ = components::weakly_connected_components(&g);
+                let _ = components::strongly_connected_components(&g);
+            }
             for x in &readd {
                 g.add_node(Arc::new(graphrs::Node { name: *x, attributes: Some(7) }));
             }
